@@ -519,7 +519,24 @@ def rule_fitted(ctx):
                 bad = (y, "the input")
             if bad:
                 break
-        if bad:
+        # the input is handed back untouched for an empty matrix only: any other shortcut (a scaler that "looks like the
+        # identity") skips what follows the per-column pass - the map onto the requested min-max range
+        unscaled = None
+        for y in walk(fn["body"]):
+            if y.get("k") != "If":
+                continue
+            rets = [z for z in walk(y["then"]) if z.get("k") == "Ret" and z.get("e") is not None and peel_refs(z["e"]).get("k") == "Path" and peel_refs(z["e"]).get("local") in whole]
+            if not rets:
+                continue
+            cnd = strip(y["c"])
+            while cnd.get("k") in ("DropTemps", "Paren"):
+                cnd = strip(cnd["e"])
+            only_empty = cnd.get("k") == "MethodCall" and cnd["name"] == "is_empty" and peel_refs(cnd["recv"]).get("local") in whole
+            if not only_empty and fn_file(fn).endswith("linear_scaling.rs"):
+                unscaled = (y, cnd)
+        if unscaled and not bad:
+            res.violate("%s : input-returned-unscaled" % key, "`%s`: the input is returned as it is under a condition other than `x.is_empty()`: the steps after the per-column pass (the map onto the requested range) are skipped for non-empty data" % r.e(unscaled[1])[:60], fn_loc(fn, unscaled[0].get("ln")))
+        elif bad:
             res.violate("%s : transform-uses-batch-statistic:%s" % (key, bad[0]["name"]), "`%s` is taken over %s, across the samples being transformed: what a sample is mapped to then depends on the rest of the batch, not on the fitted statistics alone" % (r.e(bad[0])[:50], bad[1]), fn_loc(fn, bad[0].get("ln")))
         else:
             res.ok()
@@ -550,7 +567,8 @@ def rule_stale(ctx):
 def rules(tier):
     from . import carry, c04
     from . import precision
-    return [rule_fitted, rule_meta, rule_empty, rule_div, rule_affine, rule_extrema, rule_memorder, rule_stale,
+    from . import blockmean
+    return [blockmean.make_rule("R-C16-blockmean", lambda f: f["d"]["krate"] == "linfa_preprocessing" and any(x in fn_file(f) for x in ("linear_scaling", "norm_scaling", "whitening")), "the scalers and whiteners of linfa-preprocessing"), rule_fitted, rule_meta, rule_empty, rule_div, rule_affine, rule_extrema, rule_memorder, rule_stale,
             carry.make_clone_rule("R-C16-clone", {"linfa_preprocessing"}, 8), carry.make_setter_rule("R-C16-override", {"linfa_preprocessing"}, 4),
             precision.make_rule("R-C16-precision", lambda f: f["d"]["krate"] == "linfa_preprocessing" and any(x in fn_file(f) for x in ("linear_scaling", "norm_scaling", "whitening")), 25, "linfa-preprocessing scalers and whiteners"),
             carry.make_accessor_rule("R-C16-accessor", {"linfa_preprocessing"}, 6), carry.make_ctor_rule("R-C16-ctor", {"linfa_preprocessing"}, 2)]
